@@ -125,7 +125,7 @@ def b_isinstance(I, a, k):
 
 def _isinst(I, v, t):
     if isinstance(t, ClassRef):
-        if isinstance(v, Ref) and v.kind == 'obj' and v.cls is not None:
+        if isinstance(v, Ref) and v.kind in ('obj', 'clist') and v.cls is not None:
             return v.cls.is_subclass(t.info)
         return False
     if isinstance(t, Builtin) and t.name in ('numpy.ndarray',):
@@ -338,6 +338,28 @@ def it_cycle(I, a, k):
     return CycleV(list(items))
 
 
+def it_chain(I, a, k):
+    out = []
+    for s_ in a:
+        items = Mo.concrete_iter(I, s_)
+        if items is None:
+            raise Unsupported('itertools.chain over a symbolic-length sequence')
+        out.extend(items)
+    return Mo.IterV(I.st.alloc('clist', out)) if hasattr(Mo, 'IterV') else I.st.alloc('clist', out)
+
+
+def np_prod(I, a, k):
+    items = Mo.concrete_iter(I, a[0])
+    if items is None or k:
+        raise Unsupported('numpy.prod of a symbolic-length sequence')
+    r = 1
+    for x in items:
+        if Mo.is_list(x):
+            raise Unsupported('numpy.prod of a nested sequence')
+        r = Mo.binop(I, ast.Mult(), r, x)
+    return r
+
+
 def b_next(I, a, k):
     c = a[0]
     if isinstance(c, CycleV):
@@ -490,7 +512,7 @@ def b_type(I, a, k):
 
 
 def b_super(I, a, k):
-    if len(a) == 2 and isinstance(a[0], ClassRef) and isinstance(a[1], Ref) and a[1].kind == 'obj':
+    if len(a) == 2 and isinstance(a[0], ClassRef) and isinstance(a[1], Ref) and a[1].kind in ('obj', 'clist') and a[1].cls is not None:
         return SuperV(a[0].info, a[1])
     raise Unsupported('super() without explicit (class, instance)')
 
@@ -985,6 +1007,8 @@ def lib_lookup(I, dotted):
         'numpy.float64': TypeTag('float'),
         'functools.reduce': Builtin('functools.reduce', f_reduce),
         'itertools.cycle': Builtin('itertools.cycle', it_cycle),
+        'itertools.chain': Builtin('itertools.chain', it_chain),
+        'numpy.prod': Builtin('numpy.prod', np_prod), 'numpy.product': Builtin('numpy.prod', np_prod),
         'random.random': Builtin('random.random', rnd_random),
         'random.sample': Builtin('random.sample', rnd_sample),
         'random.randint': Builtin('random.randint', rnd_randint),
